@@ -14,7 +14,8 @@ use cardano_serialization_lib as csl;
 use csl::*;
 use std::cell::{Cell, RefCell};
 
-pub trait Codec: Sized + Clone + PartialEq + std::fmt::Debug {
+pub trait Codec: Sized + Clone + std::fmt::Debug {
+    fn same(&self, o: &Self) -> bool;
     const NAME: &'static str;
     const HAS_JSON: bool;
     fn enc(&self) -> Vec<u8>;
@@ -34,6 +35,7 @@ macro_rules! codec {
         impl Codec for $t {
             const NAME: &'static str = stringify!($t);
             const HAS_JSON: bool = true;
+            fn same(&self, o: &Self) -> bool { self == o }
             fn enc(&self) -> Vec<u8> { self.to_bytes() }
             fn dec(b: Vec<u8>) -> Result<Self, String> { $t::from_bytes(b).map_err(|e| format!("{:?}", e)) }
             fn enc_hex(&self) -> String { self.to_hex() }
@@ -48,6 +50,7 @@ macro_rules! codec_nj {
         impl Codec for $t {
             const NAME: &'static str = stringify!($t);
             const HAS_JSON: bool = false;
+            fn same(&self, o: &Self) -> bool { self == o }
             fn enc(&self) -> Vec<u8> { self.to_bytes() }
             fn dec(b: Vec<u8>) -> Result<Self, String> { $t::from_bytes(b).map_err(|e| format!("{:?}", e)) }
             fn enc_hex(&self) -> String { self.to_hex() }
@@ -66,16 +69,92 @@ codec!(
     Credential, Credentials, Nonce, Vkey, VRFCert, Ed25519KeyHashes, Anchor, DRep, GovernanceActionId, Committee, Constitution, GovernanceAction,
     HardForkInitiationAction, NewConstitutionAction, NoConfidenceAction, ParameterChangeAction, TreasuryWithdrawalsAction, UpdateCommitteeAction, VotingProposal,
     VotingProposals, Voter, VotingProcedure, VotingProcedures, GeneralTransactionMetadata, AuxiliaryData, NativeScript, ScriptPubkey, ScriptAll, ScriptAny,
-    ScriptNOfK, TimelockStart, TimelockExpiry, NativeScripts, BigInt, BigNum, Int, CostModel, Costmdls, ExUnitPrices, ExUnits, Language, PlutusScripts, Redeemer,
+    ScriptNOfK, TimelockStart, TimelockExpiry, NativeScripts, BigInt, BigNum, Int, CostModel, Costmdls, ExUnitPrices, ExUnits, Language, Redeemer,
     RedeemerTag, Redeemers, PoolVotingThresholds, DRepVotingThresholds, ProtocolParamUpdate, ScriptRef, TransactionBody, TransactionInput, TransactionInputs,
-    BootstrapWitness, BootstrapWitnesses, TransactionWitnessSet, TransactionWitnessSets, Vkeywitness, Vkeywitnesses, TransactionUnspentOutput, Value,
-    Ed25519KeyHash, ScriptHash, TransactionHash, DataHash, AuxiliaryDataHash,
+    BootstrapWitness, BootstrapWitnesses, TransactionWitnessSet, TransactionWitnessSets, Vkeywitness, Vkeywitnesses, Value,
 );
-codec_nj!(MetadataMap, MetadataList, TransactionMetadatum, TransactionMetadatumLabels, ConstrPlutusData, PlutusMap, PlutusData, PlutusList, PlutusScript);
+codec_nj!(Ed25519KeyHash, ScriptHash, TransactionHash, DataHash, AuxiliaryDataHash, MetadataMap, MetadataList, TransactionMetadatum, TransactionMetadatumLabels, ConstrPlutusData, PlutusMap, PlutusData, PlutusList);
+
+// The wire form of a stand-alone Plutus script (list) is the bare script bytes: the language is
+// carried by the context (witness-set key, script_ref tag), so stand-alone decoding is compared on
+// the bytes and the enclosing types check the language.
+impl Codec for PlutusScript {
+    const NAME: &'static str = "PlutusScript";
+    const HAS_JSON: bool = false;
+    fn same(&self, o: &Self) -> bool {
+        self.bytes() == o.bytes()
+    }
+    fn enc(&self) -> Vec<u8> {
+        self.to_bytes()
+    }
+    fn dec(b: Vec<u8>) -> Result<Self, String> {
+        PlutusScript::from_bytes(b).map_err(|e| format!("{:?}", e))
+    }
+    fn enc_hex(&self) -> String {
+        self.to_hex()
+    }
+    fn dec_hex(s: &str) -> Result<Self, String> {
+        PlutusScript::from_hex(s).map_err(|e| format!("{:?}", e))
+    }
+}
+impl Codec for PlutusScripts {
+    const NAME: &'static str = "PlutusScripts";
+    const HAS_JSON: bool = true;
+    fn same(&self, o: &Self) -> bool {
+        self.len() == o.len() && (0..self.len()).all(|i| self.get(i).bytes() == o.get(i).bytes())
+    }
+    fn enc(&self) -> Vec<u8> {
+        self.to_bytes()
+    }
+    fn dec(b: Vec<u8>) -> Result<Self, String> {
+        PlutusScripts::from_bytes(b).map_err(|e| format!("{:?}", e))
+    }
+    fn enc_hex(&self) -> String {
+        self.to_hex()
+    }
+    fn dec_hex(s: &str) -> Result<Self, String> {
+        PlutusScripts::from_hex(s).map_err(|e| format!("{:?}", e))
+    }
+    fn to_json_(&self) -> Result<String, String> {
+        self.to_json().map_err(|e| format!("{:?}", e))
+    }
+    fn from_json_(s: &str) -> Result<Self, String> {
+        PlutusScripts::from_json(s).map_err(|e| format!("{:?}", e))
+    }
+}
+
+impl Codec for TransactionUnspentOutput {
+    const NAME: &'static str = "TransactionUnspentOutput";
+    const HAS_JSON: bool = true;
+    fn same(&self, o: &Self) -> bool {
+        self.input() == o.input() && self.output() == o.output()
+    }
+    fn enc(&self) -> Vec<u8> {
+        self.to_bytes()
+    }
+    fn dec(b: Vec<u8>) -> Result<Self, String> {
+        TransactionUnspentOutput::from_bytes(b).map_err(|e| format!("{:?}", e))
+    }
+    fn enc_hex(&self) -> String {
+        self.to_hex()
+    }
+    fn dec_hex(s: &str) -> Result<Self, String> {
+        TransactionUnspentOutput::from_hex(s).map_err(|e| format!("{:?}", e))
+    }
+    fn to_json_(&self) -> Result<String, String> {
+        self.to_json().map_err(|e| format!("{:?}", e))
+    }
+    fn from_json_(s: &str) -> Result<Self, String> {
+        TransactionUnspentOutput::from_json(s).map_err(|e| format!("{:?}", e))
+    }
+}
 
 impl Codec for Address {
     const NAME: &'static str = "Address";
     const HAS_JSON: bool = true;
+    fn same(&self, o: &Self) -> bool {
+        self == o
+    }
     fn enc(&self) -> Vec<u8> {
         self.to_bytes()
     }
@@ -250,9 +329,10 @@ pub fn g_address(ctx: &mut Ctx) -> Address {
             ByronAddress::from_bytes(crate::props::c11::byron_bytes(&r)).unwrap().to_address()
         }
         _ => {
-            // malformed carrier: only obtainable by decoding
+            // malformed carrier: only obtainable by decoding a structure that embeds it; the strict
+            // stand-alone parser rejects it by design (C11), so it is not visited on its own
             let ob = crate::refcbor::emit(&crate::refcbor::Node::arr(vec![crate::refcbor::Node::bytes(&[0x9f, 1, 2]), crate::refcbor::Node::uint(0)]));
-            TransactionOutput::from_bytes(ob).unwrap().address()
+            return TransactionOutput::from_bytes(ob).unwrap().address();
         }
     };
     v(ctx, a)
@@ -427,14 +507,21 @@ pub fn g_plutus_script(ctx: &mut Ctx) -> PlutusScript {
 }
 pub fn g_plutus_scripts(ctx: &mut Ctx) -> PlutusScripts {
     let n = g_n(ctx);
-    let mut ps = PlutusScripts::new();
+    let mut list: Vec<PlutusScript> = Vec::new();
     for i in 0..n {
         if i == 0 {
             let s = g_plutus_script(ctx);
-            ps.add(&s);
+            list.push(s);
         } else {
-            ps.add(&PlutusScript::new_with_version(vec![i as u8; 2 + i], &[Language::new_plutus_v1(), Language::new_plutus_v2(), Language::new_plutus_v3()][i % 3]));
+            list.push(PlutusScript::new_with_version(vec![i as u8; 2 + i], &[Language::new_plutus_v1(), Language::new_plutus_v2(), Language::new_plutus_v3()][i % 3]));
         }
+    }
+    // the wire format groups scripts by language (witness-set keys 3, 6, 7): fill the list in that
+    // order, as the JSON/wire forms cannot record any other
+    list.sort_by_key(|s| s.language_version().to_bytes());
+    let mut ps = PlutusScripts::new();
+    for s in &list {
+        ps.add(s);
     }
     v(ctx, ps)
 }
@@ -999,11 +1086,13 @@ pub fn g_certificate_kind(ctx: &mut Ctx, k: usize) -> Certificate {
     let c = match k {
         0 => {
             mark_legacy();
-            Certificate::new_stake_registration(&v(ctx, StakeRegistration::new(&g_credential(ctx))))
+            let c = g_credential(ctx);
+            Certificate::new_stake_registration(&v(ctx, StakeRegistration::new(&c)))
         }
         1 => {
             mark_legacy();
-            Certificate::new_stake_deregistration(&v(ctx, StakeDeregistration::new(&g_credential(ctx))))
+            let c = g_credential(ctx);
+            Certificate::new_stake_deregistration(&v(ctx, StakeDeregistration::new(&c)))
         }
         2 => {
             let c = g_credential(ctx);
